@@ -141,7 +141,10 @@ func H_C12_HeaderDamage() {
 	dmg[pos] = nb
 	fs.WriteFile(p, dmg)
 
-	if vrt.Choose("reader", 2) == 0 {
+	mode := vrt.Choose("reader", 3)
+	switch mode {
+	case 0, 2:
+		skip := mode == 2
 		r, err := NewFileReader(ReaderPath(p), ReaderBufferSizeBytes(64))
 		vrt.Assert(err == nil && r.Open() == nil, "damage/open-no-error")
 		for i := 0; i < victim; i++ {
@@ -149,11 +152,24 @@ func H_C12_HeaderDamage() {
 			vrt.Assert(err == nil, "damage/records-before-the-damage-readable")
 			vrt.Assert(vrt.SameBytes(got, recs[i]), "damage/records-before-the-damage-unchanged")
 		}
-		_, err = r.ReadNext()
-		vrt.Assert(err != nil, "damage/sequential-read-of-damaged-record-fails")
+		if skip {
+			// (not under the contract compressors: their output bytes are free variables, and with free bytes
+			// right behind the header a one-byte alteration of a length can be completed to a header whose
+			// checksum is right again - ReadNext then fails in the decompressor, SkipNext has nothing left to
+			// notice; real gzip/lzw output is not free)
+			vrt.Assume(comp == CompressionTypeNone || comp == CompressionTypeSnappy)
+			// skipping is reading and discarding (C04): the damaged header must stop it too, otherwise the
+			// reader is left at a wrong place and later reads return records out of order
+			err = r.SkipNext()
+			vrt.Assert(err != nil, "damage/skip-of-damaged-record-fails")
+			vrt.Reach("damage/skip")
+		} else {
+			_, err = r.ReadNext()
+			vrt.Assert(err != nil, "damage/sequential-read-of-damaged-record-fails")
+		}
 		vrt.TraceBool("seq.err", err != nil)
 		r.Close()
-	} else {
+	default:
 		m, err := NewMemoryMappedReaderWithPath(p)
 		vrt.Assert(err == nil && m.Open() == nil, "damage/mmap-open-no-error")
 		_, err = m.ReadNextAt(offs[victim])
